@@ -30,6 +30,18 @@ Theorem C04_path_precedence : forall tree mo hostorder feds,
 Proof. exact rebuild_precedence. Qed.
 Print Assumptions C04_path_precedence.
 
+(* the same for the model that is compared with the implementation on every run: hosts
+   visited in sorted order, as the code does since /repo 5f31221 *)
+Theorem C04_path_precedence_current : forall tree mo feds,
+  forallb wf_fed feds = true -> permitted mo ->
+  forall host path, wf_request host path ->
+  match lookup tree (rebuild_current mo (map add feds)) (sample host path) with
+  | Some v => exists r, best (map rule_of feds) host path r /\ rtarget r = v
+  | None => forall r, In r (map rule_of feds) -> ~ applies r host path
+  end.
+Proof. exact rebuild_current_precedence. Qed.
+Print Assumptions C04_path_precedence_current.
+
 (* ---- A: the verified checker (independent of the generator) ----
    Whatever produced `files`: if the checker accepts them for `rules`, every request is
    answered as above. The harness runs the checker inside Coq on the files the real
